@@ -102,7 +102,28 @@ def _store_if_create(frame: bytes, dev_state: dict):
 
 # ----------------------------------------------------------------------------------------
 # client side: calls
-def _make_call(api, op: str, a: dict):
+def _remote_for(irset: dict, cache: dict):
+    """One remote object per IR set and scenario (as applications keep them); every other set is loaded through
+    SwitcherBreezeRemoteManager from a temporary database file."""
+    import json as _json
+    import os as _os
+    import tempfile as _tempfile
+    from aioswitcher.api.remotes import SwitcherBreezeRemote, SwitcherBreezeRemoteManager
+    key = _json.dumps(irset, sort_keys=True)
+    if key not in cache:
+        if len(cache) % 2 == 1:
+            with _tempfile.TemporaryDirectory() as td:
+                path = _os.path.join(td, "irset_db.json")
+                with open(path, "w") as f:
+                    _json.dump({irset["IRSetID"]: irset}, f)
+                mgr = SwitcherBreezeRemoteManager(path)
+                cache[key] = mgr.get_remote(irset["IRSetID"])
+        else:
+            cache[key] = SwitcherBreezeRemote(irset)
+    return cache[key]
+
+
+def _make_call(api, op: str, a: dict, remotes: dict | None = None):
     from aioswitcher.api import Command
     from aioswitcher.api.remotes import SwitcherBreezeRemote
     from aioswitcher.device import DeviceState, ThermostatFanLevel, ThermostatMode, ThermostatSwing
@@ -128,7 +149,7 @@ def _make_call(api, op: str, a: dict):
         F = {0: ThermostatFanLevel.AUTO, 1: ThermostatFanLevel.LOW, 2: ThermostatFanLevel.MEDIUM, 3: ThermostatFanLevel.HIGH}
         S = {0: DeviceState.OFF, 1: DeviceState.ON}
         W = {0: ThermostatSwing.OFF, 1: ThermostatSwing.ON}
-        remote = SwitcherBreezeRemote(a["irset"])
+        remote = _remote_for(a["irset"], remotes if remotes is not None else {})
         return api.control_breeze_device(remote, S.get(a["state"]), M.get(a["mode"]), a["temp"], F.get(a["fan"]),
                                          W.get(a["swing"]), a["update"])
     return getattr(api, op)()
@@ -187,6 +208,7 @@ class Run:
         self.loop = vnet.VLoop(self.net)
         self.apis = []
         self.devs = []
+        self.remotes: dict = {}
 
     def log(self, **e):
         self.ev.append(e)
@@ -240,7 +262,7 @@ class Run:
             self.cur = op
             self.log(ev="Call", c=k + 1, op=op["op"], a=_spec_args(op["op"], op["a"]), clk=vnet.clk_floor())
             try:
-                coro = _make_call(self.apis[k], op["op"], op["a"])
+                coro = _make_call(self.apis[k], op["op"], op["a"], self.remotes)
             except Exception as x:  # noqa: BLE001 - raised while building the call (argument conversion)
                 self._ret(k, op, None, x)
                 return start_next(k)
